@@ -554,7 +554,7 @@ def _tlc_parallel(runs, scratch):
         kw = dict(kw or {})
         kw.setdefault('workers', w)
         return name, common.tlc(QP, cfg, coverage=cov, scratch=scratch, timeout=3000, heap='4g', **kw)
-    with ThreadPoolExecutor(max(1, len(runs))) as ex:
+    with ThreadPoolExecutor(max(1, min(len(runs), 6))) as ex:        # at most six JVMs at a time (memory, other users)
         return dict(ex.map(one, runs))
 
 
@@ -592,7 +592,8 @@ def run_model(ctx, out, stats):
         qp_cfg(cfg, nq, maxops, bss, ar, bm, 0, False, 'none', minfinal=maxops, emitmechs=RARE_MECHS)
         todo.append((rname, cfg, False, {'simulate': 'num=%d' % num, 'depth': maxops + 6, 'seed': ctx.seed + 1, 'workers': 1}))
         meta[rname] = dict(config=rname, fix=False, NQ=nq, MaxOps=maxops, kind='%d random walks (-simulate)' % num)
-    results = _tlc_parallel(todo, ctx.scratch)
+    # the single-threaded random walks start first, so that they overlap with everything else
+    results = _tlc_parallel(sorted(todo, key=lambda t: not t[0].startswith('walks')), ctx.scratch)
     for rname, _, _, _ in todo:
         r = results[rname]
         m = meta[rname]
